@@ -66,6 +66,17 @@ Example C10_retry_nonvacuous :
   retry_obs = Some (LDone, [(NSuccess, 0); (NSuccess, 1); (NSuccess, 0); (NSuccess, 1)]).
 Proof. exact (conj retry_example_consistent retry_example_run). Qed.
 
+(* Retrying a run in which every step had finished or been skipped executes no command at all. *)
+From BD.Graph Require Import RetryAll.
+Theorem C10_finished_run_executes_nothing : forall (c : cfg), norepeat c ->
+  forall tbl : nat -> nstatus, tbl_consistent c tbl -> (forall j, tbl j = NSuccess \/ tbl j = NSkipped) ->
+  forall ls s, run c (init_from c tbl) ls = Some s -> forall j, ~ In (WExecStart j) ls.
+Proof. exact retry_of_finished_run_executes_nothing. Qed.
+Print Assumptions C10_finished_run_executes_nothing.
+Example C10_finished_run_premise : forall c : cfg,
+  tbl_consistent c (fun _ => NSuccess) /\ (forall j : nat, (fun _ : nat => NSuccess) j = NSuccess \/ (fun _ : nat => NSuccess) j = NSkipped).
+Proof. exact all_finished_consistent. Qed.
+
 (* ---- "in dependency order" and "subject to scheduling" for the retry ------------------------------------------ *)
 From BD.Sched Require Import ProofsFinal.
 
